@@ -1262,7 +1262,7 @@ class WasmToIrCompiler:
                 self.push_value(phi)
         else:
             param_phis = []
-            result_phis = None
+            result_phis = []
             inner_block = None
             continue_block = None
         self.block_stack.append(
